@@ -1,27 +1,27 @@
 (* C08 - NFA regular operations are total and compute the textbook language
    operations.  Models: Model/NFAOps.v (mirrors automata/fa/nfa.py); lemmas: Proofs/NFAOps.v.
-   Hypotheses: [valid_nfa] (what NFA.validate() checks) and, where the code looks
-   row keys up in a state map (union, concatenate) or turns them into end states
-   (reverse), [rows_keyed] (every transition row belongs to a state; see the open
-   finding nfa_stray_transition_row). *)
+   The only hypothesis is [valid_nfa] (what NFA.validate() checks).  In particular a
+   transition row keyed by a name that is not a state is allowed: union, concatenate
+   and reverse skip such rows (fixed finding nfa_stray_transition_row), the other
+   operations never read them. *)
 From Coq Require Import List Arith Bool.
 From AV Require Import Base.Util Spec.Lang Spec.FA Model.NFAOps Proofs.NFAOps.
 Import ListNotations.
 
 Theorem C08_union A B :
-  valid_nfa A = true -> valid_nfa B = true -> rows_keyed A = true -> rows_keyed B = true ->
+  valid_nfa A = true -> valid_nfa B = true ->
   exists R, nfa_union A B = Ok R /\ valid_nfa R = true /\ L_nfa R =L l_union (L_nfa A) (L_nfa B).
 Proof.
-  intros HA HB KA KB. destruct (ops_union_total A B HA HB KA KB) as [R [E V]].
+  intros HA HB. destruct (ops_union_total A B HA HB) as [R [E V]].
   exists R. split; [exact E|]. split; [exact V|]. apply (ops_union_lang A B HA HB R E).
 Qed.
 Print Assumptions C08_union.
 
 Theorem C08_concatenate A B :
-  valid_nfa A = true -> valid_nfa B = true -> rows_keyed A = true -> rows_keyed B = true ->
+  valid_nfa A = true -> valid_nfa B = true ->
   exists R, nfa_concat A B = Ok R /\ valid_nfa R = true /\ L_nfa R =L l_cat (L_nfa A) (L_nfa B).
 Proof.
-  intros HA HB KA KB. destruct (ops_concat_total A B HA HB KA KB) as [R [E V]].
+  intros HA HB. destruct (ops_concat_total A B HA HB) as [R [E V]].
   exists R. split; [exact E|]. split; [exact V|]. apply (ops_concat_lang A B HA HB R E).
 Qed.
 Print Assumptions C08_concatenate.
@@ -45,10 +45,10 @@ Qed.
 Print Assumptions C08_option.
 
 Theorem C08_reverse A :
-  valid_nfa A = true -> rows_keyed A = true ->
+  valid_nfa A = true ->
   exists R, nfa_reverse A = Ok R /\ valid_nfa R = true /\ L_nfa R =L l_rev (L_nfa A).
 Proof.
-  intros HA KA. destruct (ops_reverse_total A HA KA) as [R [E V]].
+  intros HA. destruct (ops_reverse_total A HA) as [R [E V]].
   exists R. split; [exact E|]. split; [exact V|]. apply (ops_reverse_lang A HA R E).
 Qed.
 Print Assumptions C08_reverse.
@@ -106,7 +106,7 @@ Print Assumptions C08_eliminate_lambda.
    language is the same composition of the textbook language operations *)
 Theorem C08_compositions e :
   nexp_leaves_ok e = true ->
-  exists R, nfa_eval e = Ok R /\ valid_nfa R = true /\ rows_keyed R = true /\ L_nfa R =L nexp_den e.
+  exists R, nfa_eval e = Ok R /\ valid_nfa R = true /\ L_nfa R =L nexp_den e.
 Proof. exact (ops_compose e). Qed.
 Print Assumptions C08_compositions.
 
@@ -117,8 +117,7 @@ Definition exA : nfa := mknfa [0; 1] [0] [(0, [(Some 0, [1])]); (1, [(None, [0])
 Definition exB : nfa := mknfa [0] [0] [] 0 [].
 Definition exC : nfa := mknfa [0] [1] [(0, [(Some 1, [0])])] 0 [0].
 
-Example ex_hyps : valid_nfa exA = true /\ rows_keyed exA = true /\ valid_nfa exB = true /\
-                  rows_keyed exB = true /\ valid_nfa exC = true /\ rows_keyed exC = true.
+Example ex_hyps : valid_nfa exA = true /\ valid_nfa exB = true /\ valid_nfa exC = true.
 Proof. vm_compute. repeat split. Qed.
 
 Definition accw (r : res nfa) (w : word) : option bool :=
@@ -152,8 +151,18 @@ Example ex_compose :
   nexp_leaves_ok (NLQuot (NStar (NUnion (NLeaf exA) (NLeaf exC))) (NReverse (NLeaf exA))) = true /\
   accw (nfa_eval (NLQuot (NStar (NUnion (NLeaf exA) (NLeaf exC))) (NReverse (NLeaf exA)))) [1; 0] = Some true.
 Proof. vm_compute. split; reflexivity. Qed.
-(* the hypothesis rows_keyed is needed: a row of a non-state makes union fail *)
+(* transition rows keyed by a name that is not a state are accepted by valid_nfa and
+   skipped by union / concatenate / reverse.  exS: state 0 final, no edges, plus a stray
+   row 5 -a-> 0; exT: the same with the stray row named 1, the name of the fresh state
+   that reverse, kleene_star and option allocate.  L = {[]} for both. *)
+Definition exS : nfa := mknfa [0] [0] [(0, []); (5, [(Some 0, [0])])] 0 [0].
+Definition exT : nfa := mknfa [0] [0] [(0, []); (1, [(Some 0, [0])])] 0 [0].
 Example ex_stray_row :
-  let S := mknfa [0] [0] [(0, []); (5, [(Some 0, [0])])] 0 [0] in
-  valid_nfa S = true /\ nfa_union S exB = Err KeyErr /\ nfa_reverse S = Err (Invalid 1).
+  valid_nfa exS = true /\ valid_nfa exT = true /\ fresh (n_states exT) = 1 /\
+  accw (nfa_union exS exA) [] = Some true /\ accw (nfa_union exS exA) [0] = Some true /\
+  accw (nfa_union exS exB) [0] = Some false /\
+  accw (nfa_concat exS exA) [0] = Some true /\ accw (nfa_concat exT exB) [] = Some false /\
+  accw (nfa_reverse exS) [] = Some true /\ accw (nfa_reverse exS) [0] = Some false /\
+  accw (nfa_reverse exT) [] = Some true /\ accw (nfa_reverse exT) [0] = Some false /\
+  accw (nfa_star exT) [0] = Some false /\ accw (nfa_option exT) [0] = Some false.
 Proof. vm_compute. repeat split. Qed.
